@@ -190,4 +190,6 @@ def run(tier):
            "error recovery can push the error state without the accepts() simulation having succeeded: with LALR/lane-table tables the parser can "
            "reduce, fail on the same lookahead and recover again forever", key="recovery-unguarded", file=er.relfile(), line=er.line, fn=er.path)
     rep.floor("accepts() calls in error_recovery", len(acc), 1)
+    from . import dfaconfig
+    dfaconfig.check(rep, f, "dfa-config", "a valid input makes the generated lexer panic (or lex from a stale state) once the token set is large enough")
     return rep
